@@ -100,7 +100,9 @@ def gen_random_histories(work, n, depth, seed, mods, tag, conns=4, kinds=None, d
 
 def scenario_histories(mods):
     hs = []
-    for f in sorted(glob.glob(os.path.join(VERIF, "scenarios", "*.ndjson"))):
+    # (lat_* and l2_* are scenarios of the latency and the wire-level checks: their requests are outside what the
+    #  relay family's generators and the request-grain specification cover)
+    for f in sorted(glob.glob(os.path.join(VERIF, "scenarios", "D*.ndjson"))):
         for h in read_ndjson(f):
             if "steps" in h and sorted(h.get("config", {}).get("mods", [])) == sorted(mods) and not h["config"].get("flags"):
                 hs.append(h)
